@@ -502,10 +502,31 @@ def near_misses(params: list[tuple[str, str]], body: str, rng, k: int) -> list[s
     return out
 
 
+# hand-written near misses of the "same operand" idioms: the two would-be-common operands differ in a way a lax comparison may
+# swallow (bracket kind of a display, literal kind, letter case, a `:digits` run, an argument).  None is diagnosed today; a check
+# that starts to fire is judged like any other diagnostic (its rewrite is applied and executed).
+HAND_NEAR_MISSES: list[tuple[int, list[tuple[str, str]], str, dict[str, Any]]] = [
+    (108, [("p", "object"), ("q", "object")], "return p == (1, 2) or q == [1, 2]", {}),
+    (108, [("p", "object"), ("q", "object")], "return p == [1, 2] or q == {1, 2}", {}),
+    (124, [("p", "object"), ("q", "object")], "return p == [1, 2] and q == (1, 2)", {}),
+    (110, [("q", "object")], "return (1, 2) if [1, 2] else q", {}),
+    (108, [("p", "object"), ("q", "object")], "return p == 1 or q == 1.0", {}),
+    (108, [("p", "object"), ("q", "object")], 'return p == "k" or q == b"k"', {}),
+    (124, [("p", "object"), ("q", "object")], 'return p == "A" and q == "a"', {}),
+    (108, [("p", "object"), ("q", "object")], 'return p == "a:1" or q == "a:2"', {}),
+    (108, [("s", "str"), ("t", "str")], "return len(s) == 1 or len(t) == 2", {}),
+    (124, [("p", "int"), ("q", "int")], "return -p == 1 and +p == q", {}),
+    (110, [("p", "int"), ("q", "int")], "return p + 1 if p + 2 else q", {}),
+    (136, [("p", "int"), ("q", "int")], "return p if p + 0 > q else q", {}),
+]
+
+
 def build_module(rng=None, per_idiom: int = 0) -> tuple[str, list[dict[str, Any]]]:
     lines = PREAMBLE.split("\n")
     cases = []
     idioms = [(c, p, b, o, False) for c, p, b, o in IDIOMS]
+    if rng is not None:
+        idioms += [(c, p, b, o, True) for c, p, b, o in HAND_NEAR_MISSES]
     if rng is not None and per_idiom:
         seen = {b for _, _, b, _ in IDIOMS}
         for c, p, b, o in IDIOMS:
